@@ -17,7 +17,7 @@ CHECKS = {
          "Decides the name-table and key-agreement clauses (necessary conditions of the round trip); the behaviour of go-ucfg / yaml.v2 on concrete documents is third-party run-time behaviour and is not claimed.",
          "Trusted: go/types, go/ssa, tag-key conventions of go-ucfg, yaml.v2 and encoding/json. Not covered: number widths, validate tags, concrete documents.",
          "DESIGN.md section 4, C14"),
- "C08": ("other", "SSA value-flow chain LoadFilter: Policy.Assemble -> bpf.Assemble -> field-for-field copy loop -> SockFprog{Len,Filter} of the same slice -> seccomp(2) arg 3; wrapper parameters reach the raw syscall through conversions only",
+ "C08": ("other", "SSA value-flow chain followed backwards from the installation call through helper functions: seccomp(2) arg 3 <- SockFprog{Len: len(S), Filter: &S[0]} <- S = element-wise conversion (counted-loop abstraction: every index once, unconditional body, field-for-field) of exactly the slice returned by bpf.Assemble <- Policy.Assemble of filter.Policy; wrapper parameters reach the raw syscall through conversions only",
          "Program-identity clause only (second sentence of the property). The kernel's decisions after the load are run-time behaviour: not applicable to static analysis and not claimed.",
          "Trusted: go/ssa, SYS_SECCOMP oracle, bpf.Assemble maps one instruction to one raw instruction.",
          "DESIGN.md section 4, C08"),
@@ -41,13 +41,13 @@ CHECKS = {
          "Covers every function of the disasm package on all paths (any text); necessary structural conditions for each clause of the statement.",
          "Trusted: go/ssa, the compiler's prove pass (compiles, never runs), listed std functions do not panic on any string; API root pointer parameters assumed non-nil.",
          "DESIGN.md section 4, C16"),
- "C17": ("other", "publish-by-rename typestate: the cache path is never created directly, only os.Rename'd into place, dominated (interprocedurally, through helpers whose nil returns establish it) by the checked success of Run, Flush and Close; full-digest reuse guard",
+ "C17": ("other", "publish-by-rename typestate, interprocedural: the cache path (the value the dump producer returns on success, followed into helpers as an alias set) is never created directly, only os.Rename'd into place; the rename is dominated, through helpers whose nil returns establish it, by the checked success of Run, Flush and Close; the producer returns the path only behind a successful publish or a validated cache hit (inline or in a boolean helper): complete, error-free read of a 64-byte marker equal to the binary's SHA-256",
          "Decides which file states any crash point or disassembler failure can leave under the trusted name from the shape of the writer (all paths).",
          "Trusted: go/ssa dominators, atomic rename within a directory, exec.Cmd.Run error contract. Not covered: directory fsync durability (not in the statement).",
          "DESIGN.md section 4, C17"),
- "C18": ("other", "SSA guard/origin rules for the three set loops, dominance of sort.Strings over both emitters on the same slice value, typed AST of the profile literal, parsed text/template of the code emitter, tag/key agreement",
-         "Skeleton only (guards, order, sortedness, duplicate-freedom by construction, literals, keys); the set equation as a function of its inputs is value-level and not claimed.",
-         "Trusted: go/ssa, sort.Strings, text/template/parse, yaml.v2 key conventions; relies on C12 (injective tables) and C16 (Name = table[Num]).",
+ "C18": ("other", "abstract interpretation of the profiler's list handling (engine E7): every string collection is mapped to a set expression over the base sets F, BL, AL, ARCH by summarising element-wise loops (any spelling) under the membership tests on each path, helpers are followed, `len(flag) > 0` joins are resolved; the result is compared with the specified expression by a 16-row truth table; duplicate-freeness, name validity and sortedness are attributes of the abstract value; typed AST of the profile literal, parsed text/template, tag/key agreement, single-YAML-document rule",
+         "Decides the first sentence of the property exactly (set equation for all inputs with disjoint flag sets, sorted, duplicate-free, valid names) and, for the second sentence, the document layout / keys / single-document necessary conditions; how go-ucfg and yaml.v2 parse a concrete document is third-party run-time behaviour and is not claimed.",
+         "Trusted: go/ssa, sort.Strings, text/template/parse, yaml.v2 key conventions and marker-free Marshal output; relies on C12 (injective tables) and C16 (Name = table[Num]). A construct the interpreter does not model makes the obligation undecided (fails).",
          "DESIGN.md section 4, C18"),
  "C13": ("other", "effect analysis: purpose-built inclusion-based points-to (abstract CALLER/GLOBAL/OTHER memory) over everything reachable from the exported API, classification of every range over a map as order-(in)sensitive, no-concurrency-construct scan",
          "All reachable code on all paths: no write can touch caller-owned or package-level memory (one whitelisted cell), no order-sensitive map iteration; determinism, input immutability and race-freedom for distinct policy values follow.",
@@ -61,7 +61,7 @@ CHECKS = {
          "Finite, exhaustive case split: 62 class rows per (position, byte order) = 248 rows, all must agree with the unsigned 64-bit relation; word selection derived for both layouts (the tests force big-endian and cannot see the production layout).",
          "Trusted: go/ssa, cBPF jump-test semantics, struct seccomp_data layout, the E1 engine. Label level (C06).",
          "DESIGN.md section 4, C02"),
- "C03": ("other", "E1 object graph: AND/OR edge rules by label role and last-iteration predicate, empty-alternative typestate, accumulator typing of every comparison on all paths and variants; path-count rule (exactly one outcome per conditional name) and in-place merge shape in toSyscallsWithConditions",
+ "C03": ("other", "E1 object graph: AND/OR edge rules by label role (loop level of the label's creation across the inlined emitter tree) and last-iteration predicate, empty-alternative typestate, accumulator typing of every comparison on all paths and variants; value-origin of every lowered condition (element of a full range over the entry's own lists, no function in between); path-count rule (exactly one outcome per conditional name) and in-place merge shape in toSyscallsWithConditions",
          "All policies at label level: AND within a list, OR across lists, and no comparison against a syscall number with an argument word in the accumulator (the statement's last sentence).",
          "Trusted: go/ssa, cBPF semantics, C02 for the meaning of one condition. Label level (C06).",
          "DESIGN.md section 4, C03"),
@@ -73,8 +73,8 @@ CHECKS = {
          "The verifier's documented conditions decided on the label-level schema; kernel acceptance of patched programs above 255 instructions depends on C06; the 4096 bound is not analysed.",
          "Trusted: go/ssa, documented bpf_check_classic / seccomp_check_filter conditions, x/net/bpf encoding of the four kinds.",
          "DESIGN.md section 4, C05"),
- "C06": ("other", "affine-dimension (point/vector) typing of Index arithmetic, coverage of every Index-typed storage cell by updateIndices, anchor/order/quiescence/stale-value rules over the patcher's SSA, bridge-kind and bridge-skip origin rules",
-         "Necessary conditions only (each one the reason of a real defect that was repaired): full behavioural equivalence of the patcher is an inductive invariant over mutable state and is NOT claimed.",
+ "C06": ("other", "affine-dimension (point/vector) typing of Index arithmetic, coverage of every Index-typed storage cell by updateIndices, recognised insertion idioms, anchor rule, affine back-to-front traversal, quiescence before the 8-bit conversion, stale-skip and stale-position (no Index value survives a call that can insert) rules over the patcher's SSA, bridge-kind and bridge-skip origin rules",
+         "Necessary conditions only (each one the reason of a real or seeded defect): full behavioural equivalence of the patcher is an inductive invariant over mutable state and is NOT claimed.",
          "Trusted: go/ssa, cBPF jump semantics. A sufficient discipline is recognised for the order rule, so a differently organised correct patcher could be reported (stated conservatism).",
          "DESIGN.md section 4, C06"),
  "C07": ("other", "dominance and guard-shape rules for every listed rejection (resolved on value origins), nil-on-error over the compile call graph, sibling agreement of four operation tables (constants, Operations, validated set, lowered set from the E1 automaton), unreachability of the patcher's own errors at label level, enumeration of panic sites (gc prove pass listing + SSA scan + nil guards)",
